@@ -92,14 +92,14 @@ def corpus():
                              ("iterm2", {"pre": {"cell_size": [8, 16]}}, [10, 16]),
                              ("block", {"pre": {"ratio": 0.5}, "ratio": 0.4}, [10, 20]),
                              ("block", {"pre": {"ratio": 1.0}, "ratio": 0.5}, [10, 20])):
-        cs.append({"style": style, "cells": [0, 0], "cell_size": cell, "alpha": None, "term": "", "dynamic": dyn,
+        cs.append({"style": style, "cells": [0, 0], "cell_size": cell, "alpha": None, "term": "", "dynamic": dyn, "term_size": [24, 10],
                    "img": {"mode": "RGB", "size": [40, 30], "seed": 3, "kind": "runs"},
                    "args": ({"method": "lines"} if style != "block" else {})})
     # the terminal is resized while one render of a dynamically sized image is in progress
     for style in ("block", "kitty", "iterm2"):
         for k0 in ((1, 2, 3) if style == "block" else (1, 2)):
-            for other in (([40, 15], [120, 50]) if style == "block" else ([40, 15],)):
-                cs.append({"style": style, "cells": [0, 0], "alpha": None, "term": "", "dynamic": {},
+            for other in (([12, 6], [40, 16]) if style == "block" else ([12, 6],)):
+                cs.append({"style": style, "cells": [0, 0], "alpha": None, "term": "", "dynamic": {}, "term_size": [24, 10],
                            "resize_during": [k0, other], "img": {"mode": "RGB", "size": [30, 30], "seed": 4, "kind": "runs"},
                            "args": ({"method": "lines"} if style != "block" else {})})
     # kitty transmissions whose base64 payload is an exact multiple of the chunk size (k * 4096):
